@@ -88,7 +88,7 @@ theorem whcsStep_issues (ref : String) (svc : Svc) (d : Dir) : Issues (Only .whc
   repeat' issues_step
 
 theorem migrateStep_issues (crd old : String) : Issues (Only .crds) (migrateStep crd old) := by
-  unfold migrateStep; repeat' issues_step
+  unfold migrateStep migrateCrs migrateFinish; repeat' issues_step
 
 theorem lockStep_issues : Issues (Only .lock) lockStep := by
   unfold lockStep; repeat' issues_step
